@@ -699,6 +699,12 @@ LITMUS = {
     "CAS": [[("C", 0, 0, 1), ("R", 0)], [("C", 0, 0, 2), ("R", 0)]],
     "WU": [[("W", 0, 1), ("R", 0)], [("U", 0, 2), ("R", 0)]],
     "MPRS": [[("W", 0, 1), ("W", 1, 1), ("W", 1, 2)], [("R", 1), ("R", 0)]],
+    # coherence under interference: a thread's two stores are mo-ordered; another thread that has a store of
+    # its own (or has read one) then reads the FIRST of them, which moves that store later in loom's
+    # modification-order clocks; the first thread must still not read its own older store
+    "CoWR2": [[("W", 0, 2), ("W", 0, 3), ("R", 0)], [("W", 0, 1), ("R", 0)]],
+    "CoWR2r": [[("W", 0, 2), ("W", 0, 3), ("R", 0)], [("W", 0, 1), ("R", 0), ("R", 0)]],
+    "CoWR2u": [[("W", 0, 2), ("U", 0, 8), ("R", 0)], [("W", 0, 1), ("R", 0)]],
 }
 L_ORD = {"R": ["rlx", "acq", "sc"], "W": ["rlx", "rel", "sc"], "U": ["rlx", "rel", "acq", "ar", "sc"], "C": ["rlx", "ar", "sc"]}
 FENCES = [None, "rel", "acq", "ar", "sc"]
